@@ -12,7 +12,8 @@ def run(ctx):
     import subprocess, os
     from verif import ROOT
     subprocess.run(["python3", os.path.join(ROOT, "tools", "omp_extract.py")], capture_output=True, text=True)
-    ctx.prove()
+    subprocess.run(["python3", os.path.join(ROOT, "tools", "omp_owner.py")], capture_output=True, text=True)
+    ctx.prove(extra_modules=("GMGProofs.Props.C12o",))
     h = ctx.build_harness("h_par")
     if ctx.tier == "quick":
         # the three residues of ntheta mod 3 are three different ladders of the 3-colour scatter schedules
@@ -32,5 +33,8 @@ def run(ctx):
     ctx.assumptions += ["OpenMP reductions combine partial sums in arrival order: norms are not bit-reproducible by specification and are only compared "
                         "to rounding (C12.reduce_chunks is the exact-arithmetic statement)",
                         "in COMBINED mode the smoother switch depends on a norm ratio; the solves of this check disable the tolerances so that no norm is evaluated",
+                        "owner-computes regions (transfers, caches, rhs, vector kernels …): C12o.owner_regions_deterministic — any order of the work items of loops "
+                        "that no barrier separates gives the same memory, for every value type, provided each iteration respects its own-cell footprint "
+                        "(which the translator omp_owner.py checks syntactically)",
                         "determinism theorem: C12.generated_regions_deterministic (any order of the work items of a barrier interval gives the same memory, "
                         "for every value type) rests on C11 and on the assumption that a race-free OpenMP program is serialisable"]
